@@ -164,9 +164,12 @@ Scripts == <<
   <<StemSub({2}), Sub({20}), Sub({2}), StemSub({2}), StemSub({16}), StemSub({17}), Sub({21}), Blk({20}), StemSub({2})>>,
   \* 10: the same collisions, fluff first: stem 2 refused on top of public 20, and as fluff; stem 21, then fluff 16
   \*    (same output 126) throws it out; a BLOCK holding 21 (no kernel, no input in common with the pool) throws out 16
-  <<Sub({20}), StemSub({2}), Sub({2}), StemSub({21}), Sub({16}), Blk({21}), Sub({17})>>
+  <<Sub({20}), StemSub({2}), Sub({2}), StemSub({21}), Sub({16}), Blk({21}), Sub({17})>>,
+  \* 11: an output created (16), spent (17) and created AGAIN (21) inside the public pool: jointly valid once cut through
+  \*     (a block of the three is accepted), so 21 is admitted - and the set offered for mining must still assemble
+  <<Sub({16}), Sub({17}), Sub({21})>>
 >> \o (IF ShortReorg THEN <<
-  \* 11: a heavier but shorter fork lowers the height: the spend of coinbase 5 admitted at maturity is immature again
+  \* 12: a heavier but shorter fork lowers the height: the spend of coinbase 5 admitted at maturity is immature again
   <<Blk({}), Blk({}), Sub({14}), Sub({10}), Rg(2, <<{}>>), Sub({19}), Blk({}), Sub({14})>> >> ELSE <<>>)
 ScriptInit == Init /\ hist = <<>> /\ script \in 1..Len(Scripts)
 ScriptNext ==
